@@ -233,7 +233,17 @@ def judge_leaf(world, d, pre, vc_in, switches, result, for_function):
         # bound
         if p.bound is not None and a[0] in ('t', 'out') and inner_t != rsub.NOTHING and pre_ok:
             b = rsub.subst(cv.term(p.bound), m)
-            if not rsub.may(tb, inner_t, b):
+            ok_ = rsub.may(tb, inner_t, b)
+            if not ok_:
+                # a projection the CALLER pre-assigned to a parameter mentioned inside this bound is substituted as
+                # written (T2 : Cv<Cv<T1>>, T1 := in Integer gives the bound Cv<Cv<in Integer>>): inherited, see above
+                proj = {q.name: qa for q, qa in zip(ps, targs) if q in pre and qa[0] in ('out', 'in')}
+                if proj and (set(proj) & set(_vars(cv.term(p.bound)))):
+                    from mc.props.c10 import subst_args
+                    am = {q.name: (qa if qa[0] != '*' else ('t', tb.top_term())) for q, qa in zip(ps, targs)}
+                    b2 = subst_args(cv.term(p.bound), am)
+                    ok_ = b2 is None or rsub.may(tb, inner_t, b2)
+            if not ok_:
                 out.append(('bound-violated', '%s := %s is not below %s' % (p.name, rsub.show(inner_t), rsub.show(b))))
         # pre-assignment kept
         if p in pre and pre_ok:
